@@ -4,15 +4,15 @@
 using namespace coloquinte;
 extern "C" void harness() {
   float lb = __verif_nondet_float(-8000000.0f, 8000000.0f); float ub = __verif_nondet_float(-8000000.0f, 8000000.0f);
-  int wsel = __verif_choice(4);
-  float w = wsel == 0 ? 0.0f : (wsel == 1 ? 1.0f : (wsel == 2 ? 0.99f : 0.5f));
+  int wsel = __verif_choice(6);
+  float w = wsel == 0 ? 0.0f : (wsel == 1 ? 1.0f : (wsel == 2 ? 0.99f : (wsel == 3 ? 0.5f : (wsel == 4 ? 1.5f : -0.5f))));   // the check accepts -0.5 .. 1.5
   std::vector<float> r = blendPlacement(std::vector<float>(1, lb), std::vector<float>(1, ub), w);
   VASSERT(r.size() == 1, "one coordinate per cell");
   if (wsel == 0) VASSERT(r[0] == lb, "blending 0 returns the lower-bound placement exactly");
   else if (wsel == 1) VASSERT(r[0] == ub, "blending 1 returns the upper-bound placement exactly");
   else {
     double ideal = (1.0 - (double)w) * (double)lb + (double)w * (double)ub;
-    VASSERT((double)r[0] - ideal <= 2.0 && ideal - (double)r[0] <= 2.0, "the blend is (1-w)*LB + w*UB up to float rounding");
+    VASSERT((double)r[0] - ideal <= 4.0 && ideal - (double)r[0] <= 4.0, "the blend is (1-w)*LB + w*UB up to float rounding");
   }
   Circuit c(1);
   int cw = __verif_nondet_int(0, 4096); int ch = __verif_nondet_int(0, 4096);
